@@ -257,6 +257,39 @@ type nodeRT struct {
 	rank  int // rank of the last callback in the visit (prep 0, exec 1, fb 2, post 3)
 	att   int
 	open  bool
+	// batch nodes: per-run bookkeeping (item index by payload identity; attempts so far)
+	battempts map[[2]int]int // (visit,item) -> attempts so far
+	itemTok   map[int][]int  // visit -> token of each item
+}
+
+// ---- overlapping runs of the same node objects ----
+// A node object holds no per-run state, so two runs of one object may overlap in time (two parents embedding one
+// sub-flow, a node shared by two flows run from two goroutines). The harness keeps ITS per-run bookkeeping in a
+// runtimeEnv; the callbacks of the shared node objects find the runtimeEnv of the run they are executing for through
+// the goroutine they are called on (only sequential node kinds take part, so a run stays on its goroutine).
+var (
+	overlayOn int32
+	overlays  sync.Map // goroutine id -> *runtimeEnv
+)
+
+func (e *runtimeEnv) rtOf(id int) *nodeRT {
+	e.mu.Lock()
+	defer e.mu.Unlock()
+	rt, ok := e.rts[id]
+	if !ok {
+		rt = &nodeRT{env: e, id: id, visit: -1}
+		e.rts[id] = rt
+	}
+	return rt
+}
+
+func resolveRT(base *nodeRT) *nodeRT {
+	if atomic.LoadInt32(&overlayOn) != 0 {
+		if e2, ok := overlays.Load(goid()); ok {
+			return e2.(*runtimeEnv).rtOf(base.id)
+		}
+	}
+	return base
 }
 
 func (rt *nodeRT) enter(rank int) int {
@@ -316,24 +349,28 @@ func contains(l []int, k int) bool {
 // ---- the callbacks shared by all leaf node kinds ("direct" view: plain any values) ----
 
 type leafImpl struct {
-	rt  *nodeRT
+	rt0 *nodeRT // the run-time state of the run the node was built for; see rtx
 	cfg *LeafCfg
 }
+
+// rtx: the node's run-time state in the run that is calling
+func (l *leafImpl) rtx() *nodeRT { return resolveRT(l.rt0) }
 
 func (l *leafImpl) appendVisit(shared *flyt.SharedStore) {
 	var log []int
 	if v, ok := shared.Get("visits"); ok {
 		log = append(log, v.([]int)...)
 	}
-	shared.Set("visits", append(log, l.rt.id))
+	shared.Set("visits", append(log, l.rt0.id))
 }
 
 func (l *leafImpl) prep(shared *flyt.SharedStore) (any, error) {
-	e := l.rt.env
-	v := l.rt.enter(0)
-	e.record(fmt.Sprintf("p:%d:%d:%d", l.rt.id, v, e.sid(shared)))
+	rt := l.rtx()
+	e := rt.env
+	v := rt.enter(0)
+	e.record(fmt.Sprintf("p:%d:%d:%d", rt.id, v, e.sid(shared)))
 	l.appendVisit(shared)
-	o := parseOutVal(e.leafScript(l.rt.id, v).Prep)
+	o := parseOutVal(e.leafScript(rt.id, v).Prep)
 	if o.cancels {
 		e.cancelNow()
 	}
@@ -348,8 +385,8 @@ func (l *leafImpl) prep(shared *flyt.SharedStore) (any, error) {
 // node has a prep callback (a new Run would have gone through prep), otherwise when the script says
 // attempt a failed and budget remains; anything else starts a new visit.
 func (l *leafImpl) exec(arg any) (any, error) {
-	e := l.rt.env
-	rt := l.rt
+	rt := l.rtx()
+	e := rt.env
 	rt.mu.Lock()
 	k := 0
 	switch {
@@ -367,12 +404,12 @@ func (l *leafImpl) exec(arg any) (any, error) {
 	rt.open, rt.rank, rt.att = true, 1, k
 	v := rt.visit
 	rt.mu.Unlock()
-	e.record(fmt.Sprintf("e:%d:%d:%d:%s", l.rt.id, v, k, encVal(arg)))
+	e.record(fmt.Sprintf("e:%d:%d:%d:%s", rt.id, v, k, encVal(arg)))
 	if e.leafExecEnter != nil {
 		e.leafExecEnter(k)
 		defer e.leafExecLeave(k)
 	}
-	scr := e.leafScript(l.rt.id, v)
+	scr := e.leafScript(rt.id, v)
 	o := execOutcome(scr.Exec, k)
 	if o.cancels {
 		e.cancelNow()
@@ -395,10 +432,11 @@ func effBudget(c *LeafCfg) int {
 }
 
 func (l *leafImpl) fallback(arg any, err error) (any, error) {
-	e := l.rt.env
-	v := l.rt.enter(2)
-	e.record(fmt.Sprintf("f:%d:%d:%s:%s", l.rt.id, v, encVal(arg), errStr(err)))
-	o := parseOutVal(e.leafScript(l.rt.id, v).Fb)
+	rt := l.rtx()
+	e := rt.env
+	v := rt.enter(2)
+	e.record(fmt.Sprintf("f:%d:%d:%s:%s", rt.id, v, encVal(arg), errStr(err)))
+	o := parseOutVal(e.leafScript(rt.id, v).Fb)
 	if o.cancels {
 		e.cancelNow()
 	}
@@ -409,10 +447,11 @@ func (l *leafImpl) fallback(arg any, err error) (any, error) {
 }
 
 func (l *leafImpl) post(shared *flyt.SharedStore, pv, ev any) (flyt.Action, error) {
-	e := l.rt.env
-	v := l.rt.enter(3)
-	e.record(fmt.Sprintf("o:%d:%d:%d:%s:%s", l.rt.id, v, e.sid(shared), encVal(pv), encVal(ev)))
-	o := parseOutAct(e.leafScript(l.rt.id, v).Post)
+	rt := l.rtx()
+	e := rt.env
+	v := rt.enter(3)
+	e.record(fmt.Sprintf("o:%d:%d:%d:%s:%s", rt.id, v, e.sid(shared), encVal(pv), encVal(ev)))
+	o := parseOutAct(e.leafScript(rt.id, v).Post)
 	if o.cancels {
 		e.cancelNow()
 	}
@@ -428,21 +467,21 @@ func (l *leafImpl) post(shared *flyt.SharedStore, pv, ev any) (flyt.Action, erro
 type plainNode struct{ l *leafImpl }
 
 func (n *plainNode) Prep(ctx context.Context, s *flyt.SharedStore) (any, error) {
-	n.l.rt.env.seeCtx(ctx, "prep")
+	n.l.rtx().env.seeCtx(ctx, "prep")
 	if n.l.cfg.PrepS == "absent" {
 		return nil, nil
 	}
 	return n.l.prep(s)
 }
 func (n *plainNode) Exec(ctx context.Context, p any) (any, error) {
-	n.l.rt.env.seeCtx(ctx, "exec")
+	n.l.rtx().env.seeCtx(ctx, "exec")
 	if n.l.cfg.ExecS == "absent" {
 		return nil, nil
 	}
 	return n.l.exec(p)
 }
 func (n *plainNode) Post(ctx context.Context, s *flyt.SharedStore, p, e any) (flyt.Action, error) {
-	n.l.rt.env.seeCtx(ctx, "post")
+	n.l.rtx().env.seeCtx(ctx, "post")
 	if n.l.cfg.PostS == "absent" {
 		return flyt.DefaultAction, nil
 	}
@@ -472,21 +511,21 @@ type baseStruct struct {
 }
 
 func (n *baseStruct) Prep(ctx context.Context, s *flyt.SharedStore) (any, error) {
-	n.l.rt.env.seeCtx(ctx, "prep")
+	n.l.rtx().env.seeCtx(ctx, "prep")
 	if n.l.cfg.PrepS == "absent" {
 		return n.BaseNode.Prep(ctx, s)
 	}
 	return n.l.prep(s)
 }
 func (n *baseStruct) Exec(ctx context.Context, p any) (any, error) {
-	n.l.rt.env.seeCtx(ctx, "exec")
+	n.l.rtx().env.seeCtx(ctx, "exec")
 	if n.l.cfg.ExecS == "absent" {
 		return n.BaseNode.Exec(ctx, p)
 	}
 	return n.l.exec(p)
 }
 func (n *baseStruct) Post(ctx context.Context, s *flyt.SharedStore, p, e any) (flyt.Action, error) {
-	n.l.rt.env.seeCtx(ctx, "post")
+	n.l.rtx().env.seeCtx(ctx, "post")
 	if n.l.cfg.PostS == "absent" {
 		return n.BaseNode.Post(ctx, s, p, e)
 	}
@@ -524,7 +563,7 @@ func (n valueNode) Post(ctx context.Context, s *flyt.SharedStore, p, x any) (fly
 func (e *runtimeEnv) buildLeaf(id int, cfg *LeafCfg) flyt.Node {
 	rt := &nodeRT{env: e, id: id, visit: -1}
 	e.rts[id] = rt
-	l := &leafImpl{rt: rt, cfg: cfg}
+	l := &leafImpl{rt0: rt, cfg: cfg}
 	wait := time.Duration(cfg.Wait) * time.Millisecond
 	isFunc := cfg.PrepS == "res" || cfg.PrepS == "any" || cfg.ExecS == "res" || cfg.ExecS == "any" ||
 		cfg.PostS == "res" || cfg.PostS == "any"
@@ -555,7 +594,7 @@ func (e *runtimeEnv) buildLeaf(id int, cfg *LeafCfg) flyt.Node {
 // function-style node through flyt.NewNode: options, builder methods, or a mixture
 func (e *runtimeEnv) buildFuncNode(l *leafImpl, cfg *LeafCfg, wait time.Duration) flyt.Node {
 	prepRes := func(ctx context.Context, s *flyt.SharedStore) (flyt.Result, error) {
-		e.seeCtx(ctx, "prep")
+		l.rtx().env.seeCtx(ctx, "prep")
 		v, err := l.prep(s)
 		if err != nil {
 			if v != nil {
@@ -565,9 +604,9 @@ func (e *runtimeEnv) buildFuncNode(l *leafImpl, cfg *LeafCfg, wait time.Duration
 		}
 		return asResult(v), nil
 	}
-	prepAny := func(ctx context.Context, s *flyt.SharedStore) (any, error) { e.seeCtx(ctx, "prep"); return l.prep(s) }
+	prepAny := func(ctx context.Context, s *flyt.SharedStore) (any, error) { l.rtx().env.seeCtx(ctx, "prep"); return l.prep(s) }
 	execRes := func(ctx context.Context, p flyt.Result) (flyt.Result, error) {
-		e.seeCtx(ctx, "exec")
+		l.rtx().env.seeCtx(ctx, "exec")
 		v, err := l.exec(p)
 		if err != nil {
 			if v != nil {
@@ -577,13 +616,13 @@ func (e *runtimeEnv) buildFuncNode(l *leafImpl, cfg *LeafCfg, wait time.Duration
 		}
 		return asResult(v), nil
 	}
-	execAny := func(ctx context.Context, p any) (any, error) { e.seeCtx(ctx, "exec"); return l.exec(p) }
+	execAny := func(ctx context.Context, p any) (any, error) { l.rtx().env.seeCtx(ctx, "exec"); return l.exec(p) }
 	postRes := func(ctx context.Context, s *flyt.SharedStore, p, x flyt.Result) (flyt.Action, error) {
-		e.seeCtx(ctx, "post")
+		l.rtx().env.seeCtx(ctx, "post")
 		return l.post(s, p, x)
 	}
 	postAny := func(ctx context.Context, s *flyt.SharedStore, p, x any) (flyt.Action, error) {
-		e.seeCtx(ctx, "post")
+		l.rtx().env.seeCtx(ctx, "post")
 		return l.post(s, p, x)
 	}
 	fb := func(p any, err error) (any, error) { return l.fallback(p, err) }
@@ -641,14 +680,12 @@ func (e *runtimeEnv) batchScript(n, v int) *BatchScript {
 }
 
 type batchImpl struct {
-	rt  *nodeRT
-	cfg *BatchCfg
-	mu  sync.Mutex
-	// item index by identity of the item's payload (items carry distinct tokens)
-	attempts map[[2]int]int // (visit,item) -> attempts so far
-	itemTok  map[int][]int  // visit -> token of each item
-	gate     func(i, k int) // optional hook called inside every exec (gated family)
+	rt0  *nodeRT // run-time state (incl. attempts / item tokens) of the run the node was built for; see rtx
+	cfg  *BatchCfg
+	gate func(i, k int) // optional hook called inside every exec (gated family)
 }
+
+func (b *batchImpl) rtx() *nodeRT { return resolveRT(b.rt0) }
 
 func parseBatchPrep(s string) (vals []string, errN int, ok, cancels bool) {
 	if strings.HasSuffix(s, "*") {
@@ -667,11 +704,11 @@ func parseBatchPrep(s string) (vals []string, errN int, ok, cancels bool) {
 
 // itemIndex finds which item an exec/fallback argument belongs to (items of one batch visit carry
 // pairwise distinct payload tokens; generators guarantee it).
-func (b *batchImpl) itemIndex(v int, arg any) int {
+func (rt *nodeRT) itemIndex(v int, arg any) int {
 	tok := itemKey(arg)
-	b.mu.Lock()
-	defer b.mu.Unlock()
-	for i, t := range b.itemTok[v] {
+	rt.mu.Lock()
+	defer rt.mu.Unlock()
+	for i, t := range rt.itemTok[v] {
 		if t == tok {
 			return i
 		}
@@ -679,7 +716,7 @@ func (b *batchImpl) itemIndex(v int, arg any) int {
 	if tok == 0 {
 		// nil: the Value() of an error-Result item as an Any-style exec function sees it (generators put at most
 		// one such item into a batch, and no nil item next to it)
-		for i, t := range b.itemTok[v] {
+		for i, t := range rt.itemTok[v] {
 			if t < 0 {
 				return i
 			}
@@ -708,7 +745,7 @@ func itemKey(x any) int {
 func (e *runtimeEnv) buildBatch(id int, cfg *BatchCfg) flyt.Node {
 	rt := &nodeRT{env: e, id: id, visit: -1}
 	e.rts[id] = rt
-	b := &batchImpl{rt: rt, cfg: cfg, attempts: map[[2]int]int{}, itemTok: map[int][]int{}}
+	b := &batchImpl{rt0: rt, cfg: cfg}
 	bb := e.buildBatchWith(b)
 	if cfg.Build == "bare" {
 		// flyt.Run also accepts the bare *BatchNode (without the builder wrapper)
@@ -718,11 +755,13 @@ func (e *runtimeEnv) buildBatch(id int, cfg *BatchCfg) flyt.Node {
 }
 
 func (e *runtimeEnv) buildBatchWith(b *batchImpl) *flyt.BatchNodeBuilder {
-	rt, cfg, id := b.rt, b.cfg, b.rt.id
+	cfg, id := b.cfg, b.rt0.id
 	wait := time.Duration(cfg.Wait) * time.Millisecond
 
 	// prep as the Go value the scenario's shape asks for
 	prepCommon := func(shared *flyt.SharedStore) (vals []any, results []flyt.Result, err error) {
+		rt := b.rtx()
+		e := rt.env
 		v := rt.enterBatchPrep()
 		e.record(fmt.Sprintf("bp:%d:%d:%d", id, v, e.sid(shared)))
 		var log []int
@@ -748,9 +787,12 @@ func (e *runtimeEnv) buildBatchWith(b *batchImpl) *flyt.BatchNodeBuilder {
 		if cfg.Shape == "single" && len(toks) > 1 {
 			toks = toks[:1]
 		}
-		b.mu.Lock()
-		b.itemTok[v] = toks
-		b.mu.Unlock()
+		rt.mu.Lock()
+		if rt.itemTok == nil {
+			rt.itemTok = map[int][]int{}
+		}
+		rt.itemTok[v] = toks
+		rt.mu.Unlock()
 		return vals, results, nil
 	}
 	prepAny := func(ctx context.Context, shared *flyt.SharedStore) (any, error) {
@@ -788,12 +830,17 @@ func (e *runtimeEnv) buildBatchWith(b *batchImpl) *flyt.BatchNodeBuilder {
 		return rs, nil
 	}
 	execCommon := func(arg any) (any, error) {
+		rt := b.rtx()
+		e := rt.env
 		v := rt.cur()
-		i := b.itemIndex(v, arg)
-		b.mu.Lock()
-		k := b.attempts[[2]int{v, i}]
-		b.attempts[[2]int{v, i}] = k + 1
-		b.mu.Unlock()
+		i := rt.itemIndex(v, arg)
+		rt.mu.Lock()
+		if rt.battempts == nil {
+			rt.battempts = map[[2]int]int{}
+		}
+		k := rt.battempts[[2]int{v, i}]
+		rt.battempts[[2]int{v, i}] = k + 1
+		rt.mu.Unlock()
 		e.record(fmt.Sprintf("be:%d:%d:%d:%d:%s", id, v, i, k, encVal(arg)))
 		if b.gate != nil {
 			b.gate(i, k)
@@ -830,8 +877,10 @@ func (e *runtimeEnv) buildBatchWith(b *batchImpl) *flyt.BatchNodeBuilder {
 	}
 	execAny := func(ctx context.Context, p any) (any, error) { return execCommon(p) }
 	fb := func(arg any, err error) (any, error) {
+		rt := b.rtx()
+		e := rt.env
 		v := rt.cur()
-		i := b.itemIndex(v, arg)
+		i := rt.itemIndex(v, arg)
 		e.record(fmt.Sprintf("bf:%d:%d:%d:%s:%s", id, v, i, encVal(arg), errStr(err)))
 		scr := e.batchScript(id, v)
 		o := parseOutVal("!997")
@@ -847,6 +896,8 @@ func (e *runtimeEnv) buildBatchWith(b *batchImpl) *flyt.BatchNodeBuilder {
 		return o.val, nil
 	}
 	post := func(ctx context.Context, shared *flyt.SharedStore, items, results []flyt.Result) (flyt.Action, error) {
+		rt := b.rtx()
+		e := rt.env
 		v := rt.cur()
 		e.record(fmt.Sprintf("bo:%d:%d:%d:%s:%s", id, v, e.sid(shared), encVals(items), encVals(results)))
 		o := parseOutAct(e.batchScript(id, v).Post)
